@@ -1079,6 +1079,7 @@ func (s *ImmuStore) GetWithPrefixAndFilters(ctx context.Context, prefix []byte, 
 		return nil, nil, err
 	}
 
+nextKey:
 	key, indexedVal, tx, hc, err := indexer.GetWithPrefix(prefix, neq)
 	if err != nil {
 		return nil, nil, err
@@ -1097,6 +1098,12 @@ func (s *ImmuStore) GetWithPrefixAndFilters(ctx context.Context, prefix []byte, 
 		}
 
 		err = filter(valRef, now)
+		if errors.Is(err, ErrKeyNotFound) {
+			// the entry is not visible (deleted or expired), the following
+			// one with the prefix may be (keys greater than neq are considered)
+			neq = key
+			goto nextKey
+		}
 		if err != nil {
 			return nil, nil, err
 		}
